@@ -35,3 +35,14 @@ def redirection_is_a_pre_step(u, quoted):
     if t != u and U.parse(t, "http") is None:
         return True           # the inferred target is not a parseable url: which of the two unparseable-url rules applies is not settled by the property
     return a == b
+
+
+# ---- signatures of known findings ------------------------------------------
+import re
+
+_EMPTY_HINT = re.compile(r"(?:^|[?&])(?:redirect(?:_to)?|target|redir|next|link|orig|goto|url|[luq])=$", re.I)
+
+
+def sig_slash_after_empty_redirect_value(u, v, quoted, platform_aware):
+    """u ends with a redirection key and '=' (empty value): the slash appended to it is read as a relative target"""
+    return _EMPTY_HINT.search(u) is not None and v == u + "/"
